@@ -742,6 +742,19 @@ func (e *SpecEnv) evalCall(x SCall) SV {
 		// the i-th value accepted by xml Encode (ghost sequence)
 		_, seq := encHeaps(e.G)
 		return SV{Term: fmt.Sprintf("(select %s %s)", e.Cur.Heap(seq), arg(0).Term), Typ: types.NewInterfaceType(nil, nil)}
+	case "marshalCount":
+		// number of successful xml.Marshal/MarshalIndent calls so far (ghost)
+		n, _, _ := marshalHeaps(e.G)
+		return SV{Term: e.Cur.Heap(n), Typ: intT}
+	case "marshalAt":
+		// the value handed to the i-th successful xml.Marshal/MarshalIndent call (ghost sequence)
+		_, seq, _ := marshalHeaps(e.G)
+		return SV{Term: fmt.Sprintf("(select %s %s)", e.Cur.Heap(seq), arg(0).Term), Typ: types.NewInterfaceType(nil, nil)}
+	case "marshalOut":
+		// the bytes returned by the i-th successful xml.Marshal/MarshalIndent call (ghost sequence)
+		_, _, out := marshalHeaps(e.G)
+		// []byte as the source spells it (the universe's byte, whose cell heap is M_byte; types.Typ[types.Byte] is uint8)
+		return SV{Term: fmt.Sprintf("(select %s %s)", e.Cur.Heap(out), arg(0).Term), Typ: types.NewSlice(types.Universe.Lookup("byte").Type())}
 	case "seen":
 		// seen(k): key k has been produced by the enclosing range-over-map loop
 		sv, ok := e.Vars["#seen"]
